@@ -7,7 +7,7 @@ import ast
 import re
 
 from tiv import rex
-from tiv.astutil import flatten_boolop, body_walk, call_name, dotted, enclosing_stmt, guards, kw, norm, short, stores_in, walk_local, with_context
+from tiv.astutil import conds, flatten_boolop, body_walk, call_name, dotted, enclosing_stmt, guards, kw, norm, short, stores_in, walk_local, with_context
 from tiv.cfg import CFG, fmt_path
 from tiv.constfold import UNKNOWN, Folder
 from tiv.mutate import M
@@ -187,6 +187,8 @@ def run(ck, m):
     want = {"CELL_SIZE_PX_re": "cell_size", "TEXT_AREA_SIZE_PX_re": "text_area_size"}
     for pat_, (iff, mv) in branches.items():
         stored = [st for s_ in iff.body for t, st in stores_in(s_) if isinstance(t, ast.Name) and t.id in ("cell_size", "text_area_size") and isinstance(st, ast.Assign)]
+        # only what is derived from the matched reply counts (resetting the other variable to its "not obtained" constant is not a use of the reply)
+        stored = [st for st in stored if any(isinstance(x, ast.Name) and x.id in (mv, "cell_size", "text_area_size") for x in ast.walk(trace(gcs, st.value))) and norm(st.value) != norm(st.targets[0])]
         tgt = {norm(t) for st in stored for t in st.targets}
         ck.ob("R2", iff, tgt == {want[pat_]}, f"the reply matched by {pat_} must feed `{want[pat_]}`; the branch stores {sorted(tgt)}", stmt=f"get_cell_size: {pat_} -> {want[pat_]}")
         # (height, width) -> (width, height): reversed exactly once
@@ -239,9 +241,15 @@ def run(ck, m):
     ck.ob("R3", comps[0], okf, "component must be scaled as value*255 // (16**digits - 1)", stmt="x_parse_color: scale formula")
 
     # ---- R4 ----------------------------------------------------------------------------
-    first = next(s for s in qt.body if not (isinstance(s, ast.Expr) and isinstance(s.value, ast.Constant)))
-    ck.ob("R4", first, isinstance(first, ast.If) and norm(first.test) == "not _queries_enabled" and isinstance(first.body[0], ast.Return) and norm(first.body[0].value) == "None",
-          "query_terminal must return None when queries are disabled, before touching the terminal", stmt="query_terminal: disabled -> None first")
+    # with queries disabled the terminal is never touched (every termios/tty call runs under `_queries_enabled`) and None is returned
+    from tiv.sem import specialize as _spec
+    touch = [c for c in body_walk(qt) if isinstance(c, ast.Call) and ((call_name(c) or "").startswith("termios.") or (call_name(c) or "") in ("write_tty", "read_tty", "os.write", "os.read"))]
+    ck.expect(len(touch) >= 4, f"query_terminal: expected >= 4 terminal-touching calls, found {len(touch)}")
+    unguarded = [c for c in touch if "_queries_enabled" not in conds(c)]
+    rets_dis = [r for r in body_walk(qt) if isinstance(r, ast.Return) and "_queries_enabled" not in conds(r)]
+    val_ok = bool(rets_dis) and all(r.value is None or norm(_spec(trace(qt, r.value), {"_queries_enabled": False})) == "None" for r in rets_dis)
+    ck.ob("R4", enclosing_stmt(unguarded[0]) if unguarded else qt, not unguarded and val_ok,
+          "query_terminal must return None when queries are disabled, before touching the terminal" + (f" (`{short(unguarded[0], 50)}` runs regardless)" if unguarded else ""), stmt="query_terminal: disabled -> None first")
     for rel, q, fn, c in sites:
         st = enclosing_stmt(c)
         var = norm(st.targets[0]) if isinstance(st, ast.Assign) else None
@@ -252,7 +260,7 @@ def run(ck, m):
             if isinstance(u, ast.Name) and u.id == var and isinstance(u.ctx, ast.Load) and u.lineno > c.lineno:
                 par = u._p
                 is_test = (isinstance(par, (ast.If, ast.IfExp)) and par.test is u) or (isinstance(par, ast.BoolOp) and par.values[0] is u) or (isinstance(par, ast.UnaryOp))
-                guarded = any(norm(t) == var and b for t, b in guards(u)) or any(norm(t).startswith(var + " and") and b for t, b in guards(u))
+                guarded = var in conds(u)        # literal set: `if response:`, `if not response: ... else:`, guard clauses, conjunctions
                 ck.ob("R4", enclosing_stmt(u), is_test or guarded, f"{q}: `{var}` is used without checking that a response was received (None when queries are disabled, empty on timeout)", stmt=f"{q}: {short(enclosing_stmt(u), 60)} guards the response")
     sq = m.get(I, "set_query_timeout")
     ck.ob("R4", sq, any(isinstance(s, ast.If) and norm(s.test) == "timeout <= 0.0" and isinstance(s.body[0], ast.Raise) for s in sq.body), "set_query_timeout must reject a non-positive timeout", stmt="set_query_timeout rejects <= 0")
@@ -339,16 +347,63 @@ def run(ck, m):
             if isinstance(n, ast.Compare) and len(n.ops) == 1 and isinstance(n.comparators[0], ast.Tuple) and all(isinstance(e, ast.Constant) for e in n.comparators[0].elts):
                 out.append((type(n.ops[0]).__name__, tuple(e.value for e in n.comparators[0].elts)))
         return out
-    ops = conj_operands(ks)
-    ops_any = {re.sub(r"^\w+\[", "R[", o) for o in ops}
-    ck.ob("R5", ks, {"R['id'] == '31'", "R['message'] == 'OK'"} <= ops_any, f"kitty support needs the OK reply (id 31) to the graphics query; conditions found: {sorted(o for o in ops if 'response' in o)}", stmt="KittyImage.is_supported: OK reply")
-    ck.ob("R5", ks, any(p_ == "KITTY_SUPPORT_QUERY_b" for rel, q, fn, c in sites if fn is ks for p_ in [(dotted(x) or "?").split(".")[-1] for x in _concat(c.args[0])]), "kitty support must be probed with KITTY_SUPPORT_QUERY", stmt="KittyImage.is_supported: probes with KITTY_SUPPORT_QUERY")
-    ck.ob("R5", ks, version_bounds(ks) == [("GtE", (0, 20, 0))] and "name == 'kitty'" in ops and any(isinstance(n, ast.If) and norm(n.test) == "name == 'konsole'" for n in body_walk(ks)),
-          f"kitty style is supported on kitty >= 0.20.0 or on konsole; version bounds found {version_bounds(ks)}", stmt="KittyImage.is_supported: version rule")
+    # the situations in which a style declares itself supported: the conjuncts (guards traced to where their values come from, in
+    # negation normal form) under which `cls._supported = True` is stored
+    from tiv.sem import tconds
+    NAME, VER = "get_terminal_name_version()[0]", "get_terminal_name_version()[1]"
+
+    def support_stores(fn):
+        return [st for t, st in stores_in(ast.Module(body=fn.body, type_ignores=[])) if norm(t) == "cls._supported" and norm(st.value) == "True"]
+    kst = support_stores(ks)
+    ck.expect(len(kst) >= 1, "KittyImage.is_supported: no `cls._supported = True` store found")
+    kinds = set()
+    for st in kst:
+        L = tconds(ks, st)
+        okr = all(any("KITTY_RESPONSE_re.match(" in l_ and "KITTY_SUPPORT_QUERY_b" in l_ and l_.endswith(suffix) for l_ in L) for suffix in ("['id'] == '31'", "['message'] == 'OK'"))
+        ck.ob("R5", st, okr, f"kitty support needs the OK reply (id 31) to the graphics query (KITTY_SUPPORT_QUERY matched by KITTY_RESPONSE_re); conditions found: {sorted(l_[:70] for l_ in L if 'RESPONSE' in l_ or 'response' in l_)}",
+              stmt="KittyImage.is_supported: OK reply")
+        if f"{NAME} == 'kitty'" in L:
+            kinds.add("kitty")
+            ck.ob("R5", st, f"tuple(map(int, {VER}.split('.'))) >= (0, 20, 0)" in L and VER in L, f"kitty itself is supported from version 0.20.0 (dotted-integer comparison); conditions found: {sorted(l_[:70] for l_ in L if VER in l_)}",
+                  stmt="KittyImage.is_supported: kitty >= 0.20.0")
+        elif f"{NAME} == 'konsole'" in L:
+            kinds.add("konsole")
+        else:
+            ck.ob("R5", st, False, f"kitty style declared supported for a terminal that is neither kitty nor konsole; conditions: {sorted(l_[:60] for l_ in L if NAME in l_)}", stmt="KittyImage.is_supported: version rule")
+    ck.ob("R5", ks, kinds == {"kitty", "konsole"}, f"kitty style is supported on kitty >= 0.20.0 or on konsole; found for {sorted(kinds)}", stmt="KittyImage.is_supported: version rule")
     ck.ob("R5", ks, env.get("KITTY_SUPPORT_QUERY", "").startswith("\x1b_Ga=q,") and "i=31" in env.get("KITTY_SUPPORT_QUERY", ""), "the support query must be an a=q command with id 31", stmt="KITTY_SUPPORT_QUERY: a=q, i=31")
-    names = [set(e.value for e in n.comparators[0].elts) for n in body_walk(isup) if isinstance(n, ast.Compare) and isinstance(n.ops[0], ast.In) and isinstance(n.comparators[0], ast.Set)]
-    ck.ob("R5", isup, names == [{"iterm2", "konsole", "wezterm"}] and version_bounds(isup) == [("GtE", (22, 4, 0))] and any(norm(n) in ("name != 'konsole'", "name == 'konsole'") for n in body_walk(isup)),
-          f"iterm2 style is supported on iterm2, wezterm, or konsole >= 22.4.0; found names {names}, bounds {version_bounds(isup)}", stmt="ITerm2Image.is_supported: rule")
+    ist = support_stores(isup)
+    ck.expect(len(ist) >= 1, "ITerm2Image.is_supported: no `cls._supported = True` store found")
+    from tiv.absdom import EvUnk, ev as _aev
+    import itertools as _it
+    VCHK = f"tuple(map(int, {VER}.split('.'))) >= (22, 4, 0)"
+    for st in ist:
+        L = tconds(isup, st)
+        names_ok = any(b_ is not None and isinstance(b_["s"], ast.Set) and {norm(e) for e in b_["s"].elts} == {"'iterm2'", "'konsole'", "'wezterm'"}
+                       for b_ in (match_expr(f"{NAME} in $s", ast.parse(l_, mode="eval").body) for l_ in L))
+        # the version condition, decided on the truth table over (is konsole, version new enough, version parse failed)
+        vl = [l_ for l_ in L if "'konsole'" in l_ and not l_.startswith(f"{NAME} in ")]
+        verdict, wit = None, None
+        if len(vl) == 1:
+            src = vl[0].replace(f"{NAME} == 'konsole'", "K").replace(f"{NAME} != 'konsole'", "(not K)").replace(VCHK, "V").replace("__raised__(ValueError)", "R")
+            try:
+                e_ = ast.parse(src, mode="eval").body
+                verdict = True
+                for K_, V_, R_ in _it.product((True, False), repeat=3):
+                    if R_ and "R" not in {n_.id for n_ in ast.walk(e_) if isinstance(n_, ast.Name)}:
+                        continue
+                    got = bool(_aev(e_, {"K": K_, "V": V_, "R": R_}))
+                    want_ = (not K_) or (V_ and not R_)
+                    if got != want_ and wit is None:
+                        verdict, wit = False, (K_, V_, R_, got)
+            except (EvUnk, SyntaxError) as ex:
+                verdict = None
+                ck.expect(False, f"ITerm2Image.is_supported: version condition `{vl[0][:100]}` not evaluable ({ex})")
+        else:
+            ck.expect(False, f"ITerm2Image.is_supported: expected one condition on konsole, found {len(vl)}: {[x[:60] for x in vl]}")
+        if verdict is not None:
+            ck.ob("R5", st, names_ok and verdict, f"iterm2 style is supported on iterm2, wezterm, or konsole >= 22.4.0; names condition {'ok' if names_ok else 'missing'}, version condition `{vl[0][:110]}`"
+                  + (f" gives {wit[3]} for konsole={wit[0]}, new enough={wit[1]}, parse failed={wit[2]}" if wit else ""), stmt="ITerm2Image.is_supported: rule")
     parses = [c for c in body_walk(isup) if isinstance(c, ast.Call) and ((call_name(c) or "") == "int" or ((call_name(c) or "") == "map" and c.args and norm(c.args[0]) == "int")) and "version" in norm(c)]
     ck.expect(len(parses) >= 1, "ITerm2Image.is_supported: the dotted-integer version parse not found")
     from tiv.sem import econds as _econds
